@@ -90,6 +90,7 @@ def suite_validate(report, tier, seed, prop="C16"):
     impl = harness_batch([r for r in reqs if not r.startswith("spec.")])
     model = driver_batch(reqs)
     corr_ok, mon_ok = True, True
+    static_ok, never_ok = True, True
     for i, (pkt, bound, settings, size) in enumerate(metas):
         i_out, i_int = impl[2 * i], impl[2 * i + 1]
         m_out, m_int, spec = model[3 * i], model[3 * i + 1], model[3 * i + 2]
@@ -129,12 +130,54 @@ def suite_validate(report, tier, seed, prop="C16"):
             report.add_finding(Finding(prop, "mon:nothing-invalid-accepted", classify_validation(small, settings, spec, too_big),
                                        "a packet that breaks a static rule or an announced server limit passes both validators",
                                        [f"validate.out | {small}", f"validate.outint {settings} | {small}", "# spec: " + spec]))
-        if not accepted and spec_ok:
+        user_pid0 = kv_get(parse_kv(pkt)[1], "pid") in (None, "0")
+        # "at submission for static rules": what breaks a rule about the packet alone does not get past the submission check
+        if kind in ("publish", "subscribe", "unsubscribe", "disconnect") and f.get("static") == "0" and i_out == "res=ok":
+            static_ok = False
+
+            def still_static(t):
+                o = harness_batch([f"validate.out | {t}"])[0]
+                f2, _ = resp_fields(driver_batch([f"spec.valid {settings} | {t}"])[0])
+                return o == "res=ok" and f2.get("static") == "0"
+            small = shrink_packet(pkt, still_static)
+            report.add_finding(Finding(prop, "mon:static-rules-at-submission", {"kind": kind, "clause": "static-rule-not-checked-at-submission"},
+                                       "a packet that breaks a static rule of the specification passes the submission check (it is queued, and fails - if at all - only when a connection reaches it)",
+                                       [f"validate.out | {small}", "# impl: res=ok", "# spec: " + driver_batch([f"spec.valid {settings} | {small}"])[0]]))
+        # "an operation that satisfies all of them is never rejected by validation"
+        if not accepted and spec_ok and size is not None and user_pid0:
             report.count("validate.valid-but-rejected")
+            never_ok = False
+
+            def still_rejected(t, settings=settings):
+                k2, kv2 = parse_kv(t)
+                if kv_get(kv2, "pid") not in (None, "0"):
+                    return False
+                b2 = t
+                if k2 in ("publish", "subscribe", "unsubscribe", "puback") and not (k2 == "publish" and kv_get(kv2, "qos") == "0"):
+                    b2 = " ".join([k2] + [f"{k}={('7' if k == 'pid' else v)}" for k, v in kv2])
+                o = harness_batch([f"validate.out | {t}", f"validate.outint {settings} | {b2}"])
+                f2, _ = resp_fields(driver_batch([f"spec.valid {settings} | {t}"])[0])
+                e2 = encoded_len(b2, 5, None)
+                return not (o[0] == "res=ok" and o[1] == "res=ok") and f2.get("static") == "1" and f2.get("dynamic") == "1" and \
+                    e2 is not None and (mps is None or e2 <= int(mps))
+            small = shrink_packet(pkt, still_rejected)
+            which = "submission" if i_out != "res=ok" else "send-time"
+            detail = ""
+            k3, kv3 = parse_kv(small)
+            fl = [unhex(v.split(":")[0]) for k, v in kv3 if k in ("sub", "tf")]
+            if k3 == "unsubscribe" and any(x.startswith(b"$share/") for x in fl):
+                detail = "shared-filter"
+            elif k3 == "unsubscribe" and any(b"#" in x or b"+" in x for x in fl):
+                detail = "wildcard-filter"
+            report.add_finding(Finding(prop, "mon:valid-never-rejected", {"kind": k3, "clause": "valid-operation-rejected", "where": which, "detail": detail},
+                                       f"an operation that breaks no static rule and no limit the server announced is rejected by the {which} validation",
+                                       [f"validate.out | {small}", f"validate.outint {settings} | {small}", "# impl: " + i_out + " / " + i_int, "# spec: " + spec]))
     report.sample({"request": reqs[1][:300], "impl": impl[1]})
     report.sample({"request": reqs[4][:300], "impl": impl[3]})
     report.obligation("corr:validate", "correspondence", corr_ok, f"{2 * len(metas)} validator calls")
     report.obligation("mon:nothing-invalid-accepted", "monitor", mon_ok, "accepted by both validators => valid per Spec/Validity and within the announced packet size")
+    report.obligation("mon:static-rules-at-submission", "monitor", static_ok, "breaks a static rule per Spec/Validity => refused by the submission check")
+    report.obligation("mon:valid-never-rejected", "monitor", never_ok, "valid per Spec/Validity and within the announced packet size => accepted by both validators")
 
 
 def classify_validation(pkt, settings, spec, too_big):
